@@ -123,6 +123,7 @@ static void drain_peer(void) {
       continue;
     }
     if (r == 0) peer_eof = 1;
+    else if (r < 0 && errno == ECONNRESET) peer_eof = 2;     /* the peer saw a reset, not an orderly end */
     break;
   }
 }
@@ -436,6 +437,20 @@ static void do_ops(char* ops, int in_cb) {
     case 'C':
       if (!g_closing) { g_closing = 1; uv_close(&h.handle, close_cb); }
       break;
+    case 'Z': {                                /* uv_tcp_close_reset (TCP handles only) */
+      int tcp = tcp_mode || conn_mode == 't' || conn_mode == 'T';
+      if (!tcp || g_closing) break;            /* not modelled: see Model/StreamWrite.v */
+      r = uv_tcp_close_reset(&h.tcp, close_cb);
+      printf("z:%d ", r);
+      if (r == 0) g_closing = 1;
+      else {                                   /* a refused call must have no effect: SO_LINGER still off? */
+        struct linger lg; socklen_t ln = sizeof lg;
+        memset(&lg, 0, sizeof lg);
+        if (g_fd >= 0 && __real_getsockopt(g_fd, SOL_SOCKET, SO_LINGER, &lg, &ln) == 0) printf("l:%d ", lg.l_onoff);
+        else printf("l:? ");
+      }
+      break;
+    }
     case 'R':
       if (in_cb) break;
       if (!g_closing) {
